@@ -20,7 +20,7 @@ from vlib import core, query
 from checks import c02
 
 PROP = "C09"
-KINDS = {"x": "numid", "y": "string", "o": "numid_opt"}
+KINDS = {"x": "numid", "w": "numid", "y": "string", "o": "numid_opt"}
 GRANS = ["hour", "day", "week", "month", "year"]
 
 
@@ -108,7 +108,8 @@ def observed_rows(o, r):
 
 def cell_eq(m, want, got):
     if want is None:
-        return got is None or got == "" or got == 0 and m["fn"] in ("total",)
+        # a metric over no (non-null) value: the fold is empty; the engine reports null, "" or 0 - not judged
+        return got is None or got == "" or got == 0 and m["fn"] in ("total", "avg")
     if got is None:
         return False
     if m["fn"] == "avg":
@@ -183,6 +184,7 @@ def compare(chk, case, o, split, text, stats):
     return False
 
 
+COMPACTING = {"l1", "mixed", "restart"}
 SPLITS = {
     # name: (shards, layout)
     "1shard-mem": (1, "mem"),
@@ -215,7 +217,7 @@ ProbesDef == {{-3, 0, 4, 5}}
 CONSTANTS
   Data <- DataDef
   BucketTables <- BucketDef
-  NumFields = {{"x"}}
+  NumFields = {{"x", "w"}}
   CatFields = {{"y"}}
   OptFields = {{"o"}}
   Ctxs = {{{", ".join(f'"{c}"' for c in ctxs)}}}
@@ -238,64 +240,75 @@ def run(tier):
     q = tier == "quick"
     ctxs = ["c1", "c2", "c3", "c4"]
     times = [10, 20, 30, 40, 50, 60, 70, 80, 90, 95]
-    n = 12
+    n = 14
     data = []
+    # x and w share one value domain and the data holds the groups (u, v), (v, u), (u, u), (v, v) (BY x, w)
+    xw = [(0, 4), (4, 0), (4, 4), (0, 0), (4, 0), (0, 4)]
     for k in range(1, n + 1):
+        x, w = xw[k - 1] if k <= len(xw) else (rnd.choice([-3, 0, 4, 4, 10]), rnd.choice([-3, 0, 4, 10]))
         data.append({"k": k, "c": rnd.choice(ctxs), "ts": times[(k - 1) % len(times)],
-                     "f": {"x": rnd.choice([-3, 0, 4, 4, 10]), "y": rnd.choice([1, 3]), "o": rnd.choice([query.NULL, 2, 7])}})
-    mod, d = write_mc("c09", data, times, ctxs[:2])
-    r = core.tlc(mod, f"{mod}.cfg", workers=4, cwd=d, extra=["-seed", str(core.seed())], timeout=600, mem="4g")
-    if r.error or r.violated:
-        core.log(r.out[-3000:])
-        raise core.ToolError(f"AggGen failed: {r.error or r.violated}")
-    cases = r.printed("CASE")
-    core.log(f"[C09] {len(cases)} aggregate requests from TLC")
-    splits = ["1shard-mem", "1shard-l0", "3shards-mixed", "2shards-mem", "3shards-l1"] if q else list(SPLITS)
-    if q and len(cases) > 2500:
-        cases = rnd.sample(cases, 2500)
-    kept, per = [], Counter()
-    for c in cases:
-        tr = tuple(triggers(c["r"], ""))
-        if not tr or per[tr] < 10:
-            per[tr] += 1
-            kept.append(c)
-    stats["requests_steered_away"] = len(cases) - len(kept)
-    cases = kept
-    texts = [request_text(c["r"]) for c in cases]
-    for split in splits:
-        shards, layout = SPLITS[split]
-        root = core.WORK / "c09" / split
-        if root.exists():
-            shutil.rmtree(root)
-        root.mkdir(parents=True)
-        cfg = {"root": str(root / "db"), "fill_factor": 1000, "event_per_zone": 2, "shards": shards, "k": 2}
-        lts = query.layout_steps(layout, data, KINDS, time_of=lambda ts: query.TIME_EMBED[ts], optional=("o",))
-        qs = [(i, t) for i, t in enumerate(texts)]
-        # metamorphic companion: the same request without aggregation (only for plain COUNT requests)
-        comp = {}
-        for i, c in enumerate(cases):
-            rr = c["r"]
-            if [m["fn"] for m in rr["metrics"]] == ["count"] and not rr["by"] and rr["per"] == "none":
-                comp[i] = len(qs)
-                qs.append((len(qs), query.query_text({"ctx": rr["ctx"], "since": rr["since"], "where": rr["where"]}, KINDS,
-                                                     time_embed=lambda t: query.TIME_EMBED[t])))
-        results, problems = c02.run_layout(bindir, root, cfg, lts, qs)
-        if problems:
-            chk.violation(f"could not build split {split}: {problems[:2]}", {"split": split, "problems": problems[:3]})
-            continue
-        for i, c in enumerate(cases):
-            stats["evaluations"] += 1
-            ok = compare(chk, c, results.get(i), split, texts[i], stats)
-            if i in comp and ok:
-                ks, why = c02.decode_ks(results.get(comp[i]))
-                stats["metamorphic"] += 1
-                if ks is not None and len(set(ks)) != len(c["selected"]) and not triggers(c["r"], split):
-                    chk.violation(f"{texts[i]} [{split}]: COUNT agrees with the spec but the selection returns {len(set(ks))} rows", {"text": texts[i], "split": split})
-        shutil.rmtree(root, ignore_errors=True)
+                     "f": {"x": x, "w": w, "y": rnd.choice([1, 3]), "o": rnd.choice([query.NULL, 2, 7])}})
+    # layouts with compaction get a data set in which the optional field is never null: a zone whose events all
+    # omit an optional field breaks the compaction reader (open finding C07-absent-column-breaks-compaction)
+    dense = [dict(e, f=dict(e["f"], o=(2 if e["f"]["o"] == query.NULL else e["f"]["o"]))) for e in data]
+    all_states = all_trans = 0
+    for tag, data, compacting in (("", data, False), ("d", dense, True)):
+        mod, d = write_mc(f"c09{tag}", data, times, ctxs[:2])
+        r = core.tlc(mod, f"{mod}.cfg", workers=4, cwd=d, extra=["-seed", str(core.seed())], timeout=600, mem="4g")
+        if r.error or r.violated:
+            core.log(r.out[-3000:])
+            raise core.ToolError(f"AggGen failed: {r.error or r.violated}")
+        cases = r.printed("CASE")
+        core.log(f"[C09] {len(cases)} aggregate requests from TLC")
+        splits = [sp for sp in (["1shard-mem", "1shard-l0", "3shards-mixed", "2shards-mem", "3shards-l1"] if q else list(SPLITS))
+                  if (SPLITS[sp][1] in COMPACTING) == compacting]
+        if q and len(cases) > 2500:
+            cases = rnd.sample(cases, 2500)
+        kept, per = [], Counter()
+        for c in cases:
+            tr = tuple(triggers(c["r"], ""))
+            if not tr or per[tr] < 10:
+                per[tr] += 1
+                kept.append(c)
+        stats["requests_steered_away"] += len(cases) - len(kept)
+        cases = kept
+        texts = [request_text(c["r"]) for c in cases]
+        for split in splits:
+            shards, layout = SPLITS[split]
+            root = core.WORK / "c09" / (split + tag)
+            if root.exists():
+                shutil.rmtree(root)
+            root.mkdir(parents=True)
+            cfg = {"root": str(root / "db"), "fill_factor": 1000, "event_per_zone": 2, "shards": shards, "k": 2}
+            lts = query.layout_steps(layout, data, KINDS, time_of=lambda ts: query.TIME_EMBED[ts], optional=("o",))
+            qs = [(i, t) for i, t in enumerate(texts)]
+            # metamorphic companion: the same request without aggregation (only for plain COUNT requests)
+            comp = {}
+            for i, c in enumerate(cases):
+                rr = c["r"]
+                if [m["fn"] for m in rr["metrics"]] == ["count"] and not rr["by"] and rr["per"] == "none":
+                    comp[i] = len(qs)
+                    qs.append((len(qs), query.query_text({"ctx": rr["ctx"], "since": rr["since"], "where": rr["where"]}, KINDS,
+                                                         time_embed=lambda t: query.TIME_EMBED[t])))
+            results, problems = c02.run_layout(bindir, root, cfg, lts, qs)
+            if problems:
+                chk.violation(f"could not build split {split}: {problems[:2]}", {"split": split, "problems": problems[:3]})
+                continue
+            for i, c in enumerate(cases):
+                stats["evaluations"] += 1
+                ok = compare(chk, c, results.get(i), split, texts[i], stats)
+                if i in comp and ok:
+                    ks, why = c02.decode_ks(results.get(comp[i]))
+                    stats["metamorphic"] += 1
+                    if ks is not None and len(set(ks)) != len(c["selected"]) and not triggers(c["r"], split):
+                        chk.violation(f"{texts[i]} [{split}]: COUNT agrees with the spec but the selection returns {len(set(ks))} rows", {"text": texts[i], "split": split})
+            shutil.rmtree(root, ignore_errors=True)
+        all_states += r.distinct
+        all_trans += r.generated
     for c in cases[:3]:
         chk.sample({"request": c["r"], "text": request_text(c["r"]), "expected_table": c["table"]})
-    chk.cov["states"] = r.distinct
-    chk.cov["transitions"] = r.generated
+    chk.cov["states"] = all_states
+    chk.cov["transitions"] = all_trans
     chk.cov["traces_validated_against_impl"] = stats["evaluations"]
     chk.cov["evaluations"] = stats["evaluations"]
     chk.cov["distinct_nontrivial"] = stats["nontrivial_ok"]
